@@ -36,7 +36,6 @@ def handle : Handler := fun op args =>
       let l := linearSpace a b s
       "ok " ++ toString l.length ++ " " ++ showRats l
   | "c19.closest" => withArgs (do let l ← pRats; let t ← pRat; pure (l, t)) args fun (l, t) =>
-      if l.length = 0 then "undef" else
       match locateClosest l t with
       | .ok i => "ok " ++ toString i
       | .error _ => "err"
@@ -52,7 +51,7 @@ def handle : Handler := fun op args =>
   | "c19.transpose" => withArgs (pList pInts) args fun ls =>
       match transposeLists ls with
       | .ok r => "ok " ++ showLL r
-      | .error _ => if ls.length = 0 then "undef" else "err"
+      | .error _ => "err"
   | "c19.sublist" => withArgs (do let l ← pInts; let a ← pInt; let b ← pNat; pure (l, a, b)) args fun (l, a, b) =>
       let r := subList l a b
       "ok " ++ toString r.length ++ " " ++ showInts r
